@@ -41,6 +41,7 @@ var faultKinds = []string{
 	"fetch-404", "fetch-5xx-1", "fetch-5xx-2", "fetch-5xx-3", "fetch-truncated", "fetch-garbled", "fetch-no-start-time", "fetch-bad-start-time",
 	"backend-close-before-read", "backend-close-after-read", "backend-garbage-status", "backend-endless-header", "backend-bad-chunk",
 	"backend-short-length", "backend-reset-mid-body", "backend-huge-header", "backend-1xx-flood",
+	"backend-status-099", "backend-status-000", "backend-status-999", "backend-conflicting-lengths",
 	"upload-5xx-1", "upload-5xx-3", "upload-reset",
 	"shim-open-garbage", "shim-data-malformed", "shim-data-wrong-type", "shim-data-unknown-id", "shim-poll-unknown-id", "shim-poll-malformed",
 	"shim-close-unknown-id", "shim-close-wrong-type", "shim-data-huge", "shim-open-unreachable-path", "shim-session-odd-messages",
@@ -453,6 +454,13 @@ func backendFault(kind string) func(rq *vh.RawRequest, c net.Conn) bool {
 			return false
 		case "backend-huge-header":
 			c.Write([]byte("HTTP/1.1 200 OK\r\nX-Huge: " + strings.Repeat("h", 2<<20) + "\r\nContent-Length: 2\r\n\r\nok"))
+			return false
+		case "backend-status-099", "backend-status-000", "backend-status-999":
+			// three-digit status codes outside 100..599: Go's client accepts the status line
+			c.Write([]byte("HTTP/1.1 " + strings.TrimPrefix(kind, "backend-status-") + " Odd\r\nContent-Length: 2\r\n\r\nok"))
+			return true
+		case "backend-conflicting-lengths":
+			c.Write([]byte("HTTP/1.1 200 OK\r\nContent-Length: 2\r\nContent-Length: 5\r\n\r\nok"))
 			return false
 		case "backend-1xx-flood":
 			for i := 0; i < 20; i++ {
